@@ -16,6 +16,7 @@ import Upnp.Lemmas.C14Desc
 import Upnp.Lemmas.C14Svc
 import Upnp.Lemmas.C14Dev
 import Upnp.Lemmas.C14Schema
+import Upnp.Lemmas.C14Invalid
 import Upnp.Lemmas.C14Bridge
 import Upnp.Lemmas.C14DevBridge
 import Upnp.Props.C05
@@ -74,6 +75,25 @@ theorem invalid_request_rejected (fs : Facts) (stype : Str) (acts : List SAct) (
       split
       · rename_i hs; rw [hs] at hinv; cases hinv
       · rfl
+
+/-- **Which requests are invalid — the classes of the property text, stated one by one** (each then
+    falls under `invalid_request_rejected`): a body that is not XML; no SOAP `Body`; an empty `Body`;
+    a `SOAPAction` header not of the form `type#action`; a header naming no action of the service;
+    a request that parses but carries a value its variable's schema rejects (out of range / not
+    allowed).  (Missing / unknown / unparseable argument elements are the `.bad` results of
+    `parseArgs`; they are exercised by the `example` below and the correspondence, not yet stated as
+    separate lemmas.) -/
+theorem invalid_classes (fs : Facts) (acts : List SAct) (r : Req) :
+    (r.body = none → invalidReq fs acts r = true)
+    ∧ (∀ root, r.body = some root → root.find (soapq "Body") = none → invalidReq fs acts r = true)
+    ∧ (∀ root b, r.body = some root → root.find (soapq "Body") = some b → b.kids = [] → invalidReq fs acts r = true)
+    ∧ ((∀ a b, splitHash (stripQuotes (r.soapAction.getD [])) ≠ [a, b]) → invalidReq fs acts r = true)
+    ∧ (∀ t name, splitHash (stripQuotes (r.soapAction.getD [])) = [t, name] →
+        acts.find? (fun a => a.name = name) = none → invalidReq fs acts r = true)
+    ∧ (∀ act kw, parseActionBody fs acts r = .ok act kw → ∀ a ∈ act.ins, ∀ v, PyDict.get? kw a.name = some v →
+        schemaOk fs a.var v = false → invalidReq fs acts r = true) :=
+  ⟨not_xml_invalid fs acts r, no_body_invalid fs acts r, empty_body_invalid fs acts r, bad_header_invalid fs acts r,
+   unknown_action_invalid fs acts r, fun act kw hp a ha v hv hs => schema_invalid fs acts r act kw hp a ha v hv hs⟩
 
 /-- the run-time judge accepts the model's answer to every invalid request -/
 theorem invalid_request_judged (fs : Facts) (stype : Str) (acts : List SAct) (h : Handler) (r : Req)
